@@ -71,7 +71,7 @@ func (g *control) proc(depth int, inLoop bool) psref.Tok {
 
 func (g *control) stmt(depth int, inLoop, first, last bool) []psref.Tok {
 	g.budget--
-	k := g.draw(34, "stmt")
+	k := g.draw(35, "stmt")
 	switch {
 	case k < 5:
 		return []psref.Tok{g.tr()}
@@ -193,6 +193,27 @@ func (g *control) stmt(depth int, inLoop, first, last bool) []psref.Tok {
 		default:
 			return []psref.Tok{psref.TL(name), psref.TX("load"), psref.TX("exec")}
 		}
+	case k == 34:
+		// A name whose value is an executable name (taken out of a procedure
+		// body with get): executing it executes that name in turn, through the
+		// dictionary stack as it is then.
+		g.feat["def"] = true
+		g.feat["name-valued-name"] = true
+		g.feat["rebind-or-call"] = true
+		alias := []string{"x", "y"}[g.draw(2, "alias")]
+		target := []string{"p", "q", "add", "dup", "zz"}[g.draw(5, "aliastarget")]
+		g.names = append(g.names, alias)
+		toks := []psref.Tok{psref.TL(alias), psref.TP(psref.TX(target)), psref.TI(0), psref.TX("get"), psref.TX("def")}
+		if g.draw(2, "aliasdefafter") == 0 {
+			// the target is (re)defined after the alias was made
+			toks = append(toks, psref.TL(target), psref.TP(g.tr()), psref.TX("def"))
+			g.names = append(g.names, target)
+		}
+		toks = append(toks, g.tr(), g.tr())
+		if g.draw(2, "aliasinproc") == 0 {
+			return append(toks, psref.TP(psref.TX(alias)), psref.TX("exec"))
+		}
+		return append(toks, psref.TX(alias))
 	case k == 32 || k == 33:
 		// An operator name given a new meaning without `def`: stored into
 		// userdict or a fresh dictionary with put, or as an entry of a << >>
